@@ -16,10 +16,22 @@ TEXT = {
  "C07": ("Lean theorems over mirrors of the decimal/ip/datetime/duration parsers and operations (written-out recognisers + checked arithmetic); the model is the "
          "definition of 'exact': any disagreement with the real extension functions on generated strings/values is a failing input.",
          "proof over a hand-written model; std::net / chrono / regex are inside the implementation under check and are re-defined in the model"),
+ "C11": ("Lean theorems over mirrors of the schema-conformance checkers (typecheck_restricted_expr_against_schematype, Type::typecheck_restricted_expr, "
+         "validate_entity with attributes/ancestors/tags/enum ids/actions, validate_request with scope variables and context): each checker accepts exactly "
+         "the data satisfying a declarative specification (InstanceOfType, ConformsEntity, ConformsContext, ConformsRequest), and every single-fault class of "
+         "the statement falsifies the specification; tied to the code by a differential run over generated schemas, conformant data and single-fault mutations "
+         "through all 16 schema-taking entry points, which are also compared with each other.",
+         "proof over a hand-written model of the checkers on concrete values; the resolved schema is serialised from Rust's ValidatorSchema (schema "
+         "construction not modelled); correspondence is sampled (generators in harness/src/gen_schema.rs)"),
 }
 checks = []
+import re
+def has_theorems(pid):
+    f = os.path.join(ROOT, "lean", "CedarVerif", "Thm", f"{pid}.lean")
+    return os.path.exists(f) and re.search(r"^theorem\s", open(f).read(), re.M) is not None
+CLAIMED = [p for p in ALL if p in PROPS and p in TEXT and has_theorems(p)]
 for pid in ALL:
-    if pid not in PROPS:
+    if pid not in CLAIMED:
         continue
     text, note = TEXT[pid]
     checks.append({
@@ -34,7 +46,7 @@ for pid in ALL:
         "technique": "Lean 4 theorems about a hand-written executable model + checked correspondence (differential run of model vs implementation)",
     })
 na = [{"property_id": p, "reason": "check not built yet in this round (model and theorems planned in DESIGN.md §6/§7); not claimed until its proof + correspondence run exists"}
-      for p in ALL if p not in PROPS]
+      for p in ALL if p not in CLAIMED]
 m = {
     "version": 1,
     "setup_cmd": "./setup.sh",
